@@ -229,6 +229,20 @@ func encScenario(name, codec string) sx {
 			}
 		}
 		return T("ok")
+	case "same-named-types":
+		// two DISTINCT struct types with the same (package-qualified) name - function-local types called `row` - used one after
+		// the other through every entry point that takes a Go type: each must be treated as the type it is
+		r1, r2 := sameNameA(codec), sameNameB(codec)
+		if r1 != "" {
+			return T("violated", hs("first type called row: "+r1))
+		}
+		if r2 != "" {
+			return T("violated", hs("second type called row (after the first was used): "+r2))
+		}
+		if r := sameNameA(codec); r != "" {
+			return T("violated", hs("first type called row, used again after the second: "+r))
+		}
+		return T("ok")
 	case "direct-blocks-fault":
 		// FileWriter used directly (WriteHeader, then WriteBlock with row counts 0, 1, 0, 3 - empty blocks are legal), the
 		// destination failing at every write index with 0 or 1 bytes of that write accepted
@@ -347,6 +361,77 @@ func execFWD(a []sx) (out sx) {
 		return T("res", A("none"), I(int64(len(w.writes))), A("swallowed"), rec)
 	}
 	return T("res", A("none"), I(int64(len(w.writes))), A("true"), rec)
+}
+
+func sameNameRoundTrip[T comparable](codec string, vals []T) string {
+	var buf bytes.Buffer
+	e, err := avro.NewEncoderFor[T](&buf, avro.Compression(codec), 64)
+	if err != nil {
+		return "NewEncoderFor: " + err.Error()
+	}
+	for i := range vals {
+		if err := e.Encode(&vals[i]); err != nil {
+			return "Encode: " + err.Error()
+		}
+	}
+	if err := e.Flush(); err != nil {
+		return "Flush: " + err.Error()
+	}
+	file := buf.Bytes()
+	var got []T
+	var zero T
+	if err := avro.ReadFile(bytes.NewReader(file), zero, func(p unsafe.Pointer, rb *avro.ResourceBank) error {
+		got = append(got, *(*T)(p))
+		return nil
+	}); err != nil {
+		return "ReadFile: " + err.Error()
+	}
+	if len(got) != len(vals) {
+		return fmt.Sprintf("%d records written, %d read", len(vals), len(got))
+	}
+	for i := range vals {
+		if got[i] != vals[i] {
+			return fmt.Sprintf("record %d written as %+v reads back as %+v", i, vals[i], got[i])
+		}
+	}
+	// the schema in the file header is this type's, and a codec built from it for this type decodes the first record
+	sch, err := avro.SchemaForType(zero)
+	if err != nil {
+		return "SchemaForType: " + err.Error()
+	}
+	c, err := sch.Codec(zero)
+	if err != nil {
+		return "Schema.Codec: " + err.Error()
+	}
+	w := avro.NewWriteBuf(nil)
+	c.Write(w, unsafe.Pointer(&vals[0]))
+	var back T
+	rb := avro.NewReadBuf(append([]byte(nil), w.Bytes()...))
+	if err := c.Read(rb, unsafe.Pointer(&back)); err != nil {
+		return "Codec.Read: " + err.Error()
+	}
+	if back != vals[0] {
+		return fmt.Sprintf("Schema.Codec round trip: %+v reads back as %+v", vals[0], back)
+	}
+	return ""
+}
+
+func sameNameA(codec string) string {
+	type row struct {
+		A int64  `json:"a"`
+		S string `json:"s"`
+	}
+	return sameNameRoundTrip(codec, []row{{1, "one"}, {-2, ""}, {64, "sixty-four"}})
+}
+
+func sameNameB(codec string) string {
+	type row struct {
+		S string  `json:"s"`
+		B bool    `json:"b"`
+		A int64   `json:"a"`
+		F float64 `json:"f"`
+	}
+	return sameNameRoundTrip(codec, []row{{"x", true, 7, 1.5}, {"", false, -1, 0}, {"third", true, 1 << 40, -2.25}})
 }
 
 func execENC(op string, a []sx) sx {
@@ -508,6 +593,7 @@ func genENC(c *ctx, faults bool) {
 			c.emit(T("enc-scenario", A("direct-blocks-fault"), A(codec)))
 		} else {
 			c.emit(T("enc-scenario", A("two-destinations"), A(codec)))
+			c.emit(T("enc-scenario", A("same-named-types"), A(codec)))
 		}
 	}
 	emitAll := func(codec string, bs int, ops sx) {
